@@ -12,5 +12,5 @@ Extraction "../ocaml/gen/inter_model.ml"
   InterTD.td_run InterTD.g_pre InterTD.g_post InterTD.g_err InterTD.g_summaries InterTD.mkSumm
   InterTD.td_validate InterTD.callee_entry InterTD.cont InterTD.cert_ok InterTD.summ_ok InterTD.mk_cert InterTD.chk_block
   InterBU.bu_run InterBU.bu_summaries InterBU.bu_validate
-  InterTDRec.cg_wto InterTDRec.cg_wset InterTDRec.rec_run InterTDRec.r_g InterTDRec.r_fix
+  InterTDRec.cg_wto InterTDRec.cg_wset InterTDRec.rec_run InterTDRec.rec_run_checked InterTDRec.rec_cfg_okb InterTDRec.r_g InterTDRec.r_fix
   BinNums.Z BinNums.N.
